@@ -74,3 +74,22 @@ Example C05_replace_example :
        (SReplace [0; 1]%nat [0]%nat [[ELit (VInt 9); ELit (VInt 90)]; [ELit (VInt 2); ELit (VInt 21)]; [ELit (VInt 8); ELit (VInt 80)]])
   = Ok (mkT 2 [[VInt 1; VInt 10]; [VInt 2; VInt 21]; [VInt 9; VInt 90]; [VInt 8; VInt 80]], 3).
 Proof. vm_compute. reflexivity. Qed.
+
+(* REPLACE, for every table and every list of given rows: the existing rows stay where they are and
+   change at most in the listed non-key columns; the given rows that matched nothing are appended in
+   the order they were given *)
+Theorem C05_replace_keeps_rows_in_place_and_appends_unmatched : forall strict w fields keys news rows,
+  let out := fst (replace_rows strict w fields keys news rows) in
+  let upd := filter (fun f => negb (existsb (Nat.eqb f) keys)) fields in
+  exists kept app,
+    out = kept ++ app /\ length kept = length rows /\
+    (forall i r r', nth_error rows i = Some r -> nth_error kept i = Some r' ->
+        length r' = length r /\ forall j, ~ In j upd -> nth j r' VNull = nth j r VNull) /\
+    (exists sel : list (nat * row),
+        app = map snd sel /\
+        sel = filter (fun jn => negb (existsb (Nat.eqb (fst jn))
+                 (flat_map (fun h => match h with Some j => [j] | None => [] end)
+                           (map (fun r => first_match (key_of strict keys r) (map (key_of strict keys) news) 0) rows))))
+                     (combine (seq 0 (length news)) news)).
+Proof. exact replace_rows_spec. Qed.
+Print Assumptions C05_replace_keeps_rows_in_place_and_appends_unmatched.
